@@ -255,6 +255,8 @@ class PanicAnalysis:
         if s.kind == "index":
             return "index:%s[%s]" % (ctx.term(n["e"]), ctx.term(n["i"]))
         if s.kind == "assert":
+            if n["k"] == "assignop":
+                return "%s:%s %s= %s" % (s.what, ctx.term(n["l"]), n["op"].rstrip("="), ctx.term(n["r"]))
             return "%s:%s" % (s.what, ctx.term(n) if n["k"] == "bin" else ir.pp(n, maxlen=80))
         return "%s:%s" % (s.kind, ctx.term(n))
 
